@@ -11,7 +11,7 @@ Section Kuchemann.
 
   Definition quarter : T := n1 / nofZ 4.
   (* 769: aspect ratio of the segment *)
-  Definition aspect (b area : T) : T := nofZ 2 * b / area.
+  Definition aspect (b area : T) : T := nofZ 2 * b / area.     (* "area" is quad(chord, 0, 1): the mean chord *)
   (* (CLa cos(sweep) / (pi R_A)) ** 2 *)
   Definition lift_term (CLa RA sw : T) : T := fpow (CLa * fcos sw / (pi * RA)) (nofZ 2).
   (* 770-773: the sweep enters through its magnitude *)
